@@ -25,6 +25,56 @@ type tgMode struct {
 	patterns []string // regexp literals compiled in this mode (or before the mode split)
 	suffixes []string // file-name suffixes that are skipped
 	emits    int      // Fprintf calls inside `if len(m) != 0` (per innermost branch: max)
+	loopOK   bool     // the line loop is exactly: read line, (compile,) match, if matched emit
+	loopWhy  string
+}
+
+// scanLoopShape: the body of `for scanner.Scan()` must apply the pattern to every line:
+// only `x := scanner.Text()`, `re := regexp.MustCompile(..)`, `m := re.FindStringSubmatch(line)`
+// and one `if len(m) != 0 { … }` are allowed. Anything else (a skip, a state machine, a
+// rewritten line) means a matching line may not produce its test.
+func scanLoopShape(body *ast.BlockStmt) (bool, string) {
+	ifs := 0
+	for _, st := range body.List {
+		switch x := st.(type) {
+		case *ast.AssignStmt:
+			if len(x.Rhs) != 1 {
+				return false, "multi-value assignment in the line loop"
+			}
+			c, ok := x.Rhs[0].(*ast.CallExpr)
+			if !ok {
+				return false, "the line loop computes something other than Text/MustCompile/FindStringSubmatch"
+			}
+			se, ok := c.Fun.(*ast.SelectorExpr)
+			if !ok {
+				return false, "unexpected call in the line loop"
+			}
+			switch se.Sel.Name {
+			case "Text", "MustCompile", "FindStringSubmatch":
+			default:
+				return false, "unexpected call ." + se.Sel.Name + " in the line loop"
+			}
+		case *ast.IfStmt:
+			ifs++
+			be, ok := x.Cond.(*ast.BinaryExpr)
+			if !ok || x.Else != nil || x.Init != nil {
+				return false, "a conditional other than `if len(m) != 0` in the line loop"
+			}
+			lc, ok := be.X.(*ast.CallExpr)
+			if !ok {
+				return false, "a conditional other than `if len(m) != 0` in the line loop"
+			}
+			if id, ok := lc.Fun.(*ast.Ident); !ok || id.Name != "len" || be.Op != token.NEQ {
+				return false, "a conditional other than `if len(m) != 0` in the line loop"
+			}
+		default:
+			return false, fmt.Sprintf("statement %T in the line loop", st)
+		}
+	}
+	if ifs != 1 {
+		return false, fmt.Sprintf("%d conditionals in the line loop (expected one)", ifs)
+	}
+	return true, ""
 }
 
 func init() {
@@ -159,6 +209,13 @@ func extractTestGen(file string) (map[string]*tgMode, error) {
 			if c, ok := isCall(x, "strings", "HasSuffix"); ok && len(c.Args) == 2 {
 				if s, ok := strLit(c.Args[1]); ok {
 					m.suffixes = append(m.suffixes, s)
+				}
+			}
+			if fs, ok := x.(*ast.ForStmt); ok && fs.Init == nil && fs.Post == nil {
+				if c, ok := fs.Cond.(*ast.CallExpr); ok {
+					if se, ok := c.Fun.(*ast.SelectorExpr); ok && se.Sel.Name == "Scan" {
+						m.loopOK, m.loopWhy = scanLoopShape(fs.Body)
+					}
 				}
 			}
 			if ifs, ok := x.(*ast.IfStmt); ok {
@@ -316,6 +373,27 @@ func checkC18(pc *propCheck) {
 	vc.oblige("regex", "cmd/test_gen.main/regex[every top-level function named test… or failing_test… is matched]", "true", implies(app("str.in_re", "line", "re_spec"), and(inGo, inCoq)), src)
 	vc.oblige("regex", "cmd/test_gen.main/regex[nothing but headers of functions named test… or failing_test… is matched]", "true",
 		implies(or(inGo, inCoq), app("str.in_re", "line", `(re.++ (str.to_re "func") (re.union (str.to_re " ") (str.to_re "\u{9}") (str.to_re "\u{a}") (str.to_re "\u{c}") (str.to_re "\u{d}")) (re.opt (str.to_re "failing_")) (str.to_re "test") `+ident+` (str.to_re "(") re.all)`)), src)
+	// structure: the pattern is applied to every line of every non-skipped file
+	for _, md := range []string{"coq", "go"} {
+		name := fmt.Sprintf("cmd/test_gen.main/structure[%s mode: every scanned line is matched against the pattern]", md)
+		o := vc.oblige("structure", name, "true", "true", src)
+		if modes[md].loopOK {
+			o.Result = &SolverResult{Status: "unsat", Solver: "gvc-ast-scan", Output: "the line loop is: read the line, match, emit if matched"}
+		} else {
+			// the loop does something this scan does not understand: decide by the bounded
+			// directory scenario instead (labelled bounded in the evidence)
+			rr := pc.replayTestGen()
+			pc.tgReplay = &rr
+			pc.Bounded = append(pc.Bounded, "cmd/test_gen line loop not in the recognised shape ("+modes[md].loopWhy+"): decided by one generated directory (bounded)")
+			pc.Extra["bounded"] = pc.Bounded
+			if rr.Confirmed {
+				o.Goal = "false"
+				o.Result = &SolverResult{Status: "unknown", Solver: "gvc-ast-scan", Output: "line loop: " + modes[md].loopWhy + "; the generated-directory scenario fails: " + rr.Detail}
+			} else {
+				o.Result = &SolverResult{Status: "unsat", Solver: "bounded-directory-scenario", Output: "line loop: " + modes[md].loopWhy + "; generated-directory scenario passes (bounded, not a proof)"}
+			}
+		}
+	}
 	// structure: one emitted block per matching line
 	for _, md := range []string{"coq", "go"} {
 		o := vc.oblige("structure", fmt.Sprintf("cmd/test_gen.main/structure[%s mode: a matching line emits exactly one test]", md), "true", "true", src)
